@@ -115,3 +115,16 @@ package commitgraph
 //gvc:  loop 1 step moved: head == head(head) + ite(spec_gda_overflows(data), 1, 0)
 //gvc:  sink WriteUint32 requires form: ite(spec_gda_overflows(data), arg1 >= 0x80000000, arg1 == data)
 //gvc:end
+
+// OpenChainIndex (C53: a decoder of repository data returns a value or an
+// error, it does not panic): every Close it issues while unwinding has a
+// receiver -- the chain opened so far may be empty (first graph missing) and a
+// failed OpenFileIndexWithParent returns no index to close.
+//gvc:func OpenChainIndex
+//gvc:  props C53
+//gvc:  theory int
+//gvc:  opt coarse
+//gvc:  opt frame args
+//gvc:  loop 1 invariant pos: it1 >= 0
+//gvc:  sink Close requires live: recv != nil
+//gvc:end
